@@ -50,7 +50,8 @@ func findTextwireFiles() (map[string]string, error) {
 			return err
 		}
 
-		if info.IsDir() || !strings.Contains(path, userConfig.TemplateExt) {
+		// a template file is a file whose name ends with the extension
+		if info.IsDir() || !strings.HasSuffix(path, userConfig.TemplateExt) {
 			return nil
 		}
 
@@ -72,8 +73,15 @@ func findTextwireFiles() (map[string]string, error) {
 	return result, nil
 }
 
+// nameFromPath returns the path relative to the template
+// directory without the template extension at the end
 func nameFromPath(path string) string {
-	name := strings.Replace(path, userConfig.TemplateDir+"/", "", 1)
-	name = strings.Replace(name, userConfig.TemplateExt, "", 1)
-	return name
+	name, err := filepath.Rel(userConfig.TemplateDir, path)
+	if err != nil {
+		name = path
+	}
+
+	name = filepath.ToSlash(name)
+
+	return strings.TrimSuffix(name, userConfig.TemplateExt)
 }
